@@ -13,7 +13,12 @@ import threading
 def guarded_check(solver, timeout_ms):
     """solver.check() with a watchdog: z3's own timeout is not always honoured inside nlsat, so the
     context is interrupted from a timer thread (the answer is then 'unknown')"""
-    t = threading.Timer(timeout_ms / 1000.0 * 1.3 + 0.5, solver.ctx.interrupt)
+    fired = [False]
+
+    def _interrupt():
+        fired[0] = True
+        solver.ctx.interrupt()
+    t = threading.Timer(timeout_ms / 1000.0 * 1.3 + 0.5, _interrupt)
     t.daemon = True
     t.start()
     try:
@@ -22,6 +27,20 @@ def guarded_check(solver, timeout_ms):
         return 'unknown'
     finally:
         t.cancel()
+        t.join(0.2)
+        if fired[0]:
+            # the interrupt may have arrived after check() returned: a pending cancellation would make the *next* z3
+            # call fail ("push canceled"); it is consumed here by throw-away calls
+            for _ in range(3):
+                try:
+                    z3.simplify(z3.Real("__drain__") + 0)
+                    d_ = z3.Solver(ctx=solver.ctx)
+                    d_.push()
+                    d_.check()
+                    d_.pop()
+                    break
+                except z3.Z3Exception:
+                    continue
 
 
 def _model_dict(m):
